@@ -3,6 +3,7 @@ use crate::runner::Prop;
 pub mod c01;
 pub mod c03;
 pub mod c13;
+pub mod c23;
 pub mod c24;
 pub mod c27;
 pub mod c24_table;
@@ -38,6 +39,7 @@ pub fn all() -> Vec<Box<dyn Prop>> {
         Box::new(hist::Hist { id: "C12" }),
         Box::new(hist::Hist { id: "C14" }),
         Box::new(hist::Hist { id: "C30" }),
+        Box::new(c23::C23),
         Box::new(scen::C04),
         Box::new(scen::C05),
     ]
